@@ -819,11 +819,19 @@ def stab_vs_plain(d, r, n, seed, fam, prof, s, e, rcap=None, is_eigh=True):
 
 # ----------------------------------------------------------------------------- re-scaling one core
 
+def _same_mantissa(a, b):
+    """Equal up to 8 ulp.  Bit-identity was demanded here at first; it is more than the property states and it is not even true of
+    one and the same library on equal values: the rescaled core is a fresh contiguous array while its neighbours may be views, and
+    the contraction kernels (einsum / BLAS) order their sums by memory layout (refactoring C16-r4 with non-contiguous cores: 1 ulp).
+    The exponent bookkeeping, which is what the clause is about, stays exact."""
+    return bool(abs(a - b) <= 8 * EPS * max(abs(a), abs(b)))
+
+
 @clause('C16.rescale.exponent_only', funcs=('act_two.mul_scalar', 'act_one.norm', 'transformation.orthogonalize',
                                             'core.core_stab'))
 def rescale_exponent_only(d, r, n, seed, fam, prof, s, pos, t, kmode):
     """Rescaling core `pos` by the exact power of two 2^t shifts the exponent and nothing else: mul_scalar(Y, Y2)
-    -> (v, p + t) (and (v, p + 2t) if both arguments are rescaled), norm -> (z, q + t) with bit-identical mantissas;
+    -> (v, p + t) (and (v, p + 2t) if both arguments are rescaled), norm -> (z, q + t) with the same mantissas (8 ulp);
     orthogonalize(Y, k) -> exponent p + t and the same mantissa cores (up to 8 ulp of the largest entry: the QR
     kernels may order their sums differently for another magnitude)."""
     Y, ex = make(d, r, n, seed, fam, prof, s)
@@ -843,7 +851,8 @@ def rescale_exponent_only(d, r, n, seed, fam, prof, s, pos, t, kmode):
     if v0 == 0.0 or w0 == 0.0:          # exactly-zero scalar product: the exponent carries no information
         if not (v1 == 0.0 and v2 == 0.0 and v3 == 0.0):
             return FAIL(f'mul_scalar: zero value became ({v1!r}, {v2!r}, {v3!r}) for core {j} times 2^{t}')
-    elif not (np.isfinite(v0) and v1 == v0 and v2 == v0 and v3 == w0 and p1 == p0 + t and p2 == p0 + 2 * t and p3 == o0 + t):
+    elif not (np.isfinite(v0) and _same_mantissa(v1, v0) and _same_mantissa(v2, v0) and _same_mantissa(v3, w0)
+              and p1 == p0 + t and p2 == p0 + 2 * t and p3 == o0 + t):
         return FAIL(f'mul_scalar: ({v0!r}, {p0}) -> one argument ({v1!r}, {p1}), both ({v2!r}, {p2}), swapped ({v3!r}, {p3}) '
                     f'for core {j} times 2^{t}')
     z0, q0 = teneva.norm(Y, use_stab=True)
@@ -852,7 +861,7 @@ def rescale_exponent_only(d, r, n, seed, fam, prof, s, pos, t, kmode):
         if z1 != 0.0:
             return FAIL(f'norm: zero mantissa became {z1!r}')
         return TRIVIAL('exactly-zero tensor')
-    if not (np.isfinite(z0) and z1 == z0 and q1 == q0 + t):
+    if not (np.isfinite(z0) and _same_mantissa(z1, z0) and q1 == q0 + t):
         return FAIL(f'norm: ({z0!r}, {q0}) -> ({z1!r}, {q1}) for core {j} times 2^{t}')
     k = _pivot(d, kmode)
     Z0, e0 = teneva.orthogonalize(Y, k, use_stab=True)
